@@ -26,6 +26,8 @@ func ruleC04(prog *Program, rep *Report) {
 	rulePadBound(prog, rep)
 	ruleFlatSeparator(prog, rep)
 	ruleGenTwins(prog, rep, 1, "pretty", "oj", "sen", "alt", "jp", "asm", "gen", "")
+	ruleTightAppendTwins(prog, rep, "oj")            // the four object emitters omit the same members
+	ruleBorrowedWrites(prog, rep)                    // a caller's Writer left in strict mode writes null for an empty array afterwards
 	ruleGlobalReturn(prog, rep, 5, "pretty", "oj")   // the layout nodes a builder hands out are filled in by its caller (key, members)
 	ruleFlagConsist(prog, rep, 3, "oj", "gen")       // pickWriter and friends: the in-memory and streaming entries pass their fixed flags alike
 	ruleSelfRec(prog, rep, 2, "gen", "oj", "pretty") // the writers simplify generic nodes through gen's copying walk
